@@ -106,6 +106,18 @@ def realign_record(draw, g, lm, name, rnd, tags=None, fragmented=None, max_len=5
     return line, read
 
 
+def soft_mask(draw, g):
+    """Soft-masked (lower-case) stretches in the segment sequences; reads derived from them keep the case."""
+    if draw(st.integers(0, 3)) == 0:
+        for d in g["nodes"].values():
+            k = draw(st.integers(0, 3))
+            if k == 0:
+                d["seq"] = d["seq"].lower()
+            elif k == 1:
+                h = len(d["seq"]) // 2
+                d["seq"] = d["seq"][:h] + d["seq"][h:].lower()
+
+
 def wrap_fasta(text, width):
     """Re-wraps an unwrapped FASTA text at `width` columns (every sequence line but the last of a record is full)."""
     if not width:
@@ -137,6 +149,7 @@ def realign_inputs(draw, min_records=1, max_records=14, max_ln=12, max_chroms=1)
     # realign needs plain ACGT for an exact replay of '=' / 'X' columns
     for d in g["nodes"].values():
         d["seq"] = d["seq"].replace("N", "A")
+    soft_mask(draw, g)
     lm = models.LinkModel(g["links"])
     n = draw(st.integers(min_records, max_records))
     lines, fasta = [], []
